@@ -49,7 +49,7 @@ func (g *gen) graphCase(id string) *EvalCase {
 	depthPool := []int{1, 2, 3, 5, 18, 19, 20, 21, 22, 25, 40, 60}
 	fk := func(i int) string { return fmt.Sprintf("g%d", i) }
 	sk := func(i int) string { return fmt.Sprintf("sg%d", i) }
-	shape := r.intn(14)
+	shape := r.intn(16)
 	tag := ""
 	switch shape {
 	case 0, 1: // chain of prerequisites, all met, optionally the last one unmet/off/missing
@@ -219,6 +219,42 @@ func (g *gen) graphCase(id string) *EvalCase {
 			cc.Inc = []string{"u"}
 		}
 		c.Store.Segments = append(c.Store.Segments, root, a, b, cc)
+	case 14, 15: // a deep prerequisite chain whose bottom flag walks a deep segment chain; the nodes are
+		// ordinary generated flags (targets, rules, rollouts) and the context a generated one
+		d1, d2 := pick(r, depthPool), pick(r, depthPool)
+		tag = fmt.Sprintf("prereq-chain-%d-into-segment-chain-%d", d1, d2)
+		gg := &gen{r: r.fork(), p: profiles["wellformed"]}
+		c.Ctx = gg.context()
+		if c.Ctx.T == "invalid" {
+			c.Ctx = WCtx{T: "single", C: &sc}
+		}
+		gg.ctxKeys = ctxKeysOf(&c.Ctx)
+		top.Prereqs = []WPrereq{{fk(0), 0}}
+		for i := 0; i < d1; i++ {
+			f := gg.flag(fk(i), nil, nil)
+			f.On, f.Prereqs, f.Targets, f.CTargets = true, []WPrereq{}, []WTarget{}, []WTarget{}
+			// whatever the node's own rules do, it serves variation 0 when nothing matches
+			f.Vars = []JV{jStr("v0"), jStr("v1"), jStr("v2"), jStr("v3")}
+			f.FT = WVR{V: ip(0), RO: WRollout{Vars: []WWV{}, By: mkRef("", "")}}
+			if i+1 < d1 {
+				f.Prereqs = []WPrereq{{fk(i + 1), 0}}
+			} else {
+				f.Rules = append([]WFlagRule{{ID: "into-segments", VR: WVR{V: ip(0), RO: WRollout{Vars: []WWV{}, By: mkRef("", "")}},
+					Clauses: segRefRule(sk(0)).Clauses}}, f.Rules...)
+			}
+			c.Store.Flags = append(c.Store.Flags, f)
+		}
+		for i := 0; i < d2; i++ {
+			sg := simpleSegment(sk(i))
+			if i+1 < d2 {
+				sg.Rules = []WSegRule{segRefRule(sk(i + 1))}
+			} else if r.bool() {
+				sg.Rules = []WSegRule{{ID: "all", Clauses: []WClause{}, By: mkRef("", "")}}
+			} else if r.bool() {
+				sg.Rules = []WSegRule{segRefRule(sk(0))} // closes a cycle at the bottom
+			}
+			c.Store.Segments = append(c.Store.Segments, sg)
+		}
 	default: // prerequisite whose rule consults a segment cycle; and a malformed prerequisite
 		tag = "mixed"
 		top.Prereqs = []WPrereq{{fk(0), 0}, {fk(1), 0}}
@@ -449,7 +485,144 @@ func (g *gen) wideCase(id string) *EvalCase {
 		}
 		return out
 	}
-	switch r.intn(7) {
+	switch r.intn(15) {
+	case 7: // an array attribute with many elements, the one that satisfies the clause at pos
+		m := n
+		if m > 257 {
+			m = 257
+		}
+		arr := make([]JV, m)
+		for i := range arr {
+			arr[i] = jStr(fmt.Sprintf("e%05d", i))
+		}
+		p := pos
+		if p >= m {
+			p = m - 1
+		}
+		if p >= 0 {
+			arr[p] = jStr("wanted")
+		}
+		sc.Attrs = append(sc.Attrs, WAttr{"arr", JV{K: 'a', A: arr}})
+		c.Ctx = WCtx{T: "single", C: &sc}
+		f.Rules = []WFlagRule{{ID: "wide-array", Clauses: []WClause{{Attr: mkRef("lit", "arr"), Op: pick(r, []string{"in", "endsWith", "matches"}), Vals: []JV{jStr("x"), jStr("wanted")}, Neg: r.chance(1, 6)}},
+			VR: WVR{V: ip(1), RO: WRollout{Vars: []WWV{}, By: mkRef("", "")}}}}
+	case 8: // one segmentMatch clause naming many segments, the one containing the context at pos
+		m := n
+		if m > 129 {
+			m = 129
+		}
+		vals := []JV{}
+		for i := 0; i < m; i++ {
+			sg := simpleSegment(fmt.Sprintf("ws%04d", i))
+			if i == pos || (pos >= m && i == m-1) {
+				sg.Inc = []string{sc.Key}
+			}
+			if i%3 == 0 {
+				continue // named but not in the store
+			}
+			c.Store.Segments = append(c.Store.Segments, sg)
+			vals = append(vals, jStr(sg.Key))
+		}
+		f.Rules = []WFlagRule{{ID: "wide-segments", Clauses: []WClause{{Attr: mkRef("", ""), Op: "segmentMatch", Vals: vals}},
+			VR: WVR{V: ip(1), RO: WRollout{Vars: []WWV{}, By: mkRef("", "")}}}}
+	case 9: // many clauses in one rule (all must hold), the failing one at pos
+		m := n
+		if m > 129 {
+			m = 129
+		}
+		cls := []WClause{}
+		for i := 0; i < m; i++ {
+			cl := WClause{Attr: mkRef("lit", "key"), Op: "in", Vals: []JV{jStr(sc.Key)}}
+			if i == pos {
+				cl.Vals = []JV{jStr("someone-else")}
+			}
+			cls = append(cls, cl)
+		}
+		f.Rules = []WFlagRule{{ID: "wide-clauses", Clauses: cls, VR: WVR{V: ip(1), RO: WRollout{Vars: []WWV{}, By: mkRef("", "")}}}}
+	case 10: // many segment rules, the matching one at pos
+		m := n
+		if m > 257 {
+			m = 257
+		}
+		sg := simpleSegment("wide-rules")
+		sg.Form = pick(r, handForms)
+		for i := 0; i < m; i++ {
+			k := fmt.Sprintf("k%05d", i)
+			if i == pos || (pos >= m && i == m-1) {
+				k = sc.Key
+			}
+			sg.Rules = append(sg.Rules, WSegRule{ID: fmt.Sprintf("sr%d", i), Clauses: []WClause{{Attr: mkRef("lit", "key"), Op: "in", Vals: []JV{jStr(k)}}}, By: mkRef("", "")})
+		}
+		c.Store.Segments = []WSegment{sg}
+		f.Rules = []WFlagRule{{ID: "in-seg", Clauses: []WClause{{Attr: mkRef("", ""), Op: "segmentMatch", Vals: []JV{jStr(sg.Key)}}},
+			VR: WVR{V: ip(1), RO: WRollout{Vars: []WWV{}, By: mkRef("", "")}}}}
+	case 11: // many per-kind lists in a segment / many context target lists, the holding one at pos
+		m := n
+		if m > 129 {
+			m = 129
+		}
+		mk := func(i int) []string {
+			if i == pos || (pos >= m && i == m-1) {
+				return []string{"x", sc.Key}
+			}
+			return []string{fmt.Sprintf("k%05d", i)}
+		}
+		if r.bool() {
+			sg := simpleSegment("wide-lists")
+			sg.Form = pick(r, handForms)
+			for i := 0; i < m; i++ {
+				t := WSegTarget{CK: pick(r, []string{"org", "device", "other"}), Vals: mk(i)}
+				if i == pos || (pos >= m && i == m-1) {
+					t.CK = "org"
+				}
+				if r.bool() {
+					sg.IncC = append(sg.IncC, t)
+				} else {
+					sg.ExcC = append(sg.ExcC, t)
+				}
+			}
+			sg.Rules = []WSegRule{{ID: "all", Clauses: []WClause{}, By: mkRef("", "")}}
+			c.Store.Segments = []WSegment{sg}
+			c.Ctx = WCtx{T: "multi", Cs: []WSCtx{sc, {Kind: "org", Key: sc.Key, Attrs: []WAttr{}}}}
+			f.Rules = []WFlagRule{{ID: "in-seg", Clauses: []WClause{{Attr: mkRef("", ""), Op: "segmentMatch", Vals: []JV{jStr(sg.Key)}}},
+				VR: WVR{V: ip(1), RO: WRollout{Vars: []WWV{}, By: mkRef("", "")}}}}
+		} else {
+			for i := 0; i < m; i++ {
+				f.CTargets = append(f.CTargets, WTarget{CK: pick(r, []string{"org", "device", "user"}), Vals: mk(i), V: i % 3})
+			}
+		}
+	case 12: // many legacy target lists behind one user placeholder
+		m := n
+		if m > 129 {
+			m = 129
+		}
+		for i := 0; i < m; i++ {
+			vals := []string{fmt.Sprintf("k%05d", i)}
+			if i == pos || (pos >= m && i == m-1) {
+				vals = append(vals, sc.Key)
+			}
+			f.Targets = append(f.Targets, WTarget{Vals: vals, V: i % 3})
+			if r.chance(1, 3) {
+				f.CTargets = append(f.CTargets, WTarget{CK: "user", Vals: []string{}, V: i % 3})
+			}
+		}
+	case 13: // a context with many attributes, the referenced one last
+		m := n
+		if m > 257 {
+			m = 257
+		}
+		for i := 0; i < m; i++ {
+			sc.Attrs = append(sc.Attrs, WAttr{fmt.Sprintf("x%04d", i), jNum(float64(i))})
+		}
+		sc.Attrs = append(sc.Attrs, WAttr{"wanted", jStr("yes")})
+		c.Ctx = WCtx{T: "single", C: &sc}
+		f.Rules = []WFlagRule{{ID: "wide-attrs", Clauses: []WClause{{Attr: mkRef("lit", "wanted"), Op: "in", Vals: []JV{jStr("yes")}}},
+			VR: WVR{V: ip(1), RO: WRollout{Vars: []WWV{}, By: mkRef("", "")}}}}
+	case 14: // a long rollout reached with a bucket-by attribute whose rendering is long
+		sc.Attrs = append(sc.Attrs, WAttr{"bk", jStr(strings.Repeat("b", n))})
+		c.Ctx = WCtx{T: "single", C: &sc}
+		ro := WRollout{Vars: []WWV{{V: 0, W: 50000}, {V: 1, W: 50000}}, By: mkRef("lit", "bk")}
+		f.FT = WVR{RO: ro}
 	case 0: // clause values
 		vals := make([]JV, n)
 		for i := range vals {
@@ -659,8 +832,39 @@ func (g *gen) segSplitCase(id string) *EvalCase {
 			rule.RCK = ""
 		}
 	}
+	// half of the time the rule buckets by an attribute (string or integer) instead of the key: the
+	// searched value then goes into that attribute
+	byAttr := ""
+	if r.bool() {
+		byAttr = pick(r, []string{"bk", "n", "email"})
+		if rule.RCK == "" {
+			rule.By = mkRef("lit", byAttr)
+		} else {
+			rule.By = mkRef("ref", "/"+byAttr)
+		}
+	}
+	intAttr := byAttr != "" && r.bool()
+	setProbe := func(key string) {
+		if byAttr == "" {
+			sc.Key = key
+			return
+		}
+		v := jStr(key)
+		if intAttr {
+			var n float64
+			fmt.Sscanf(key, "user-%f", &n)
+			v = jNum(n)
+		}
+		attrs := []WAttr{}
+		for _, a := range sc.Attrs {
+			if a.K != byAttr {
+				attrs = append(attrs, a)
+			}
+		}
+		sc.Attrs = append(attrs, WAttr{byAttr, v})
+	}
 	bucketFn := func(key string) float64 {
-		sc.Key = key
+		setProbe(key)
 		ctx := WCtx{T: "single", C: &sc}
 		return bucketOf(c.Opts.Sec, ctx.build(), false, nil, rule.RCK, seg.Key, rule.By.build(), seg.Salt)
 	}
@@ -669,13 +873,13 @@ func (g *gen) segSplitCase(id string) *EvalCase {
 		tries = 150
 	}
 	key, b := nearThreshold(r, tries, bucketFn)
-	sc.Key = key
+	setProbe(key)
 	w := int(math.Round(b*100000)) + pick(r, []int{0, 0, 0, 0, 1, -1, 2})
 	if r.chance(1, 12) {
 		w = pick(r, []int{0, -1, 100000, 100001, -100000})
 	}
 	rule.Weight = &w
-	if r.chance(1, 3) {
+	if r.chance(1, 3) && byAttr == "" {
 		rule.Clauses = []WClause{{Attr: mkRef("lit", "key"), Op: "in", Vals: []JV{jStr(key)}}}
 	}
 	seg.Rules = []WSegRule{rule}
@@ -944,6 +1148,21 @@ func genStream(name string, r *rng, id string) *EvalCase {
 	if len(c.Store.Flags) > 0 && r.chance(1, 3) {
 		alignPrerequisites(c, r)
 	}
+	if rawEnabled && r.chance(1, 10) {
+		rawifyData(c, r)
+	}
+	if r.chance(1, 8) {
+		// the store also holds the evaluated flag itself, under its own key (the worker then hands
+		// the store's object to Evaluate half of the time)
+		held := false
+		for i := range c.Store.Flags {
+			held = held || c.Store.Flags[i].lookupKey() == c.Flag.Key
+		}
+		if !held {
+			cp := cloneCase(c).Flag
+			c.Store.Flags = append(c.Store.Flags, cp)
+		}
+	}
 	return c
 }
 
@@ -1011,6 +1230,9 @@ func genStream0(name string, r *rng, id string) *EvalCase {
 	case "operators":
 		g.p = profiles["wellformed"]
 		return g.operatorCase(id)
+	case "statuspairs":
+		g.p = profiles["bigseg"]
+		return g.statusPairsCase(id)
 	case "bucketedge":
 		g.p = profiles["rollouts"]
 		return g.bucketEdgeCase(id)
@@ -1212,7 +1434,6 @@ func (g *gen) bucketEdgeCase(id string) *EvalCase {
 	return c
 }
 
-
 // widenLists blows one string list of a flag and of a segment up to a length on or next to a
 // power of two (block sizes of buffered readers, pooled scratch slices, unrolled loops).
 func widenLists(r *rng, f *WFlag, s *WSegment) {
@@ -1248,5 +1469,99 @@ func widenLists(r *rng, f *WFlag, s *WSegment) {
 		default:
 			s.IncC = append(s.IncC, WSegTarget{CK: "org", Vals: keys})
 		}
+	}
+}
+
+// statusPairsCase: every ordered pair and triple of provider statuses — the four constants, the
+// empty status and a foreign string — merged by ONE evaluation: a multi-kind context whose members
+// have distinct keys, one unbounded segment per member, the provider answering each key with its
+// own status. The index of the case (the last component of its id) enumerates the combinations,
+// so that a run of a few hundred cases is exhaustive; how the implementation phrases "the more
+// problematic status wins, the later one on ties" does not matter to this check.
+func (g *gen) statusPairsCase(id string) *EvalCase {
+	r := g.r
+	statuses := []string{"", "HEALTHY", "STALE", "STORE_ERROR", "NOT_CONFIGURED", "weird-status"}
+	idx := r.intn(6*6 + 6*6*6)
+	if i := strings.LastIndex(id, "/"); i >= 0 {
+		var n int
+		if _, err := fmt.Sscan(id[i+1:], &n); err == nil {
+			idx = n % (6*6 + 6*6*6)
+		}
+	}
+	var combo []string
+	if idx < 36 {
+		combo = []string{statuses[idx/6], statuses[idx%6]}
+	} else {
+		j := idx - 36
+		combo = []string{statuses[j/36], statuses[(j/6)%6], statuses[j%6]}
+	}
+	c := &EvalCase{ID: id, Kind: "eval", Opts: WOpts{Log: true, Rec: true}}
+	c.Store.Flags, c.Store.Segments = []WFlag{}, []WSegment{}
+	kinds := []string{"user", "org", "device"}[:len(combo)]
+	ctx := WCtx{T: "multi"}
+	f := simpleFlag("flag", true, 0, 2)
+	f.Form = pick(r, handForms)
+	bs := &WBS{Table: []WBSEntry{}, Dflt: WBSAnswer{St: "HEALTHY"}}
+	for i, k := range kinds {
+		ctx.Cs = append(ctx.Cs, WSCtx{Kind: k, Key: "key-" + k, Attrs: []WAttr{}})
+		s := simpleSegment("big-" + k)
+		s.Unb, s.UnbK, s.Gen = true, k, ip(1+i)
+		s.Form = pick(r, handForms)
+		c.Store.Segments = append(c.Store.Segments, s)
+		f.Rules = append(f.Rules, WFlagRule{ID: fmt.Sprintf("r%d", i), VR: WVR{V: ip(1), RO: WRollout{Vars: []WWV{}, By: mkRef("", "")}},
+			Clauses: []WClause{{Attr: mkRef("", ""), Op: "segmentMatch", Vals: []JV{jStr(s.Key)}}}})
+		ans := WBSAnswer{St: combo[i]}
+		if r.bool() {
+			ans.M = []WMember{} // a membership object that contains nothing
+		}
+		bs.Table = append(bs.Table, WBSEntry{Key: "key-" + k, A: ans})
+	}
+	c.Ctx = ctx
+	c.Flag = f
+	c.BS = bs
+	c.Tags = []string{"statuspairs"}
+	return c
+}
+
+// rawifyData turns one clause operand or one variation of the case's flags and segments into an
+// unparsed value (ldvalue.Raw): hand-built configurations may hold them as well as contexts.
+func rawifyData(c *EvalCase, r *rng) {
+	wrap := func(v *JV) {
+		if v.K != 'r' && v.K != 'z' {
+			*v = JV{K: 'r', A: []JV{*v}}
+		}
+	}
+	var clauses []*WClause
+	var vars []*JV
+	visit := func(f *WFlag) {
+		for i := range f.Rules {
+			for j := range f.Rules[i].Clauses {
+				clauses = append(clauses, &f.Rules[i].Clauses[j])
+			}
+		}
+		for i := range f.Vars {
+			vars = append(vars, &f.Vars[i])
+		}
+	}
+	visit(&c.Flag)
+	for i := range c.Store.Flags {
+		visit(&c.Store.Flags[i])
+	}
+	for i := range c.Store.Segments {
+		for j := range c.Store.Segments[i].Rules {
+			for k := range c.Store.Segments[i].Rules[j].Clauses {
+				clauses = append(clauses, &c.Store.Segments[i].Rules[j].Clauses[k])
+			}
+		}
+	}
+	if len(clauses) > 0 && r.chance(2, 3) {
+		cl := clauses[r.intn(len(clauses))]
+		if len(cl.Vals) > 0 {
+			wrap(&cl.Vals[r.intn(len(cl.Vals))])
+			return
+		}
+	}
+	if len(vars) > 0 {
+		wrap(vars[r.intn(len(vars))])
 	}
 }
